@@ -26,8 +26,12 @@ def run(ctx):
     rnd = random.Random(ctx.seed)
     dev = ctx.known_devs()
     progs = F.c09_family(ctx.tier, rnd)
+    # macros whose defining element carries tal:on-error (part of the macro wherever it is used)
+    mprogs = F.c13_metal(ctx.tier, rnd)
     # (1) conformance: machine (with recorded deviations) vs real code
     agg = run_family("C09metal", progs, NAMES, dev=dev, invariants=INVS, perms=(0, 1), timeout=3000)
+    ctx.add_family(agg)
+    agg = run_family("C09onerror", mprogs, NAMES, dev=dev, invariants=INVS, perms=(0,), timeout=3000)
     ctx.add_family(agg)
     # (2) inline equivalence on the ideal machine, via TLC on both programs
     # P8 (macroname) and P9 (assignments by code blocks stay inside the macro or filler) are not inline-equivalent by design
